@@ -12,24 +12,33 @@ from . import tlc as tlcmod
 DT = torch.float64
 
 
-def _mk(kind, val):
+SHAPES = [(), (2,), (1, 2)]
+
+
+def _mk(kind, val, shape=()):
     if kind == "num":
         return float(val)
-    t = torch.tensor(val, dtype=DT)
+    t = torch.full(shape, val, dtype=DT) + 0.05 * torch.arange(int(torch.tensor(shape).prod()) if shape else 1, dtype=DT).reshape(shape)
     return t.requires_grad_() if kind in ("tg", "tu") else t
 
 
 def _use(ks, ps):
-    """scalar combination of the parameters that influence the function: product of (1 + 0.1 p) over 'tg', 'tn', 'num' entries"""
+    """scalar combination of the parameters that influence the function: product of (1 + 0.1 mean(p)) over 'tg', 'tn', 'num' entries"""
     c = 1.0
     for k, p in zip(ks, ps):
         if k != "tu":
-            c = c * (1.0 + 0.1 * p)
+            c = c * (1.0 + 0.1 * (p.mean() if isinstance(p, torch.Tensor) and p.dim() > 0 else p))
     return c
 
 
-def run_row(fname, ks):
-    ps = [_mk(k, v) for k, v in zip(ks, (0.7, -0.4, 1.3))]
+def run_row(fname, ks, layout="scalars"):
+    shapes = SHAPES if layout == "shapes" else [(), (), ()]
+    ps = [_mk(k, v, sh) for k, v, sh in zip(ks, (0.7, -0.4, 1.3), shapes)]
+    ks2, ps2 = ks, ps
+    if layout == "shapes" and fname == "mcquad":
+        # the second list: separate tensors, kinds and shapes rotated by one position
+        ks2 = ks[1:] + ks[:1]
+        ps2 = [_mk(k, v, sh) for k, v, sh in zip(ks2, (-0.3, 0.9, 0.5), shapes[1:] + shapes[:1])]
     if fname == "rootfinder":
         out = xitorch.optimize.rootfinder(lambda y, *p: y - 0.3 * torch.tanh(y) - _use(ks, p), torch.zeros(2, dtype=DT), params=ps)
     elif fname == "equilibrium":
@@ -41,10 +50,12 @@ def run_row(fname, ks):
     elif fname == "quad":
         out = xitorch.integrate.quad(lambda x, *p: torch.sin(x * _use(ks, p)).reshape(1), torch.tensor(0.1, dtype=DT), torch.tensor(0.9, dtype=DT), params=ps, n=6)
     elif fname == "mcquad":
-        out = xitorch.integrate.mcquad(lambda x, *p: x.sum() * _use(ks, p) + torch.zeros(1, dtype=DT), lambda x, *p: (-0.5 * (x - 0.1 * _use(ks, p)) ** 2).sum(),
-                                       torch.zeros(1, dtype=DT), fparams=ps, pparams=ps, method="mhcustom", nsamples=4, nburnout=2, custom_step=lambda x, *p: x * 0.5 + 0.3)
+        out = xitorch.integrate.mcquad(lambda x, *p: x.sum() * _use(ks, p) + torch.zeros(1, dtype=DT), lambda x, *p: (-0.5 * (x - 0.1 * _use(ks2, p)) ** 2).sum(),
+                                       torch.zeros(1, dtype=DT), fparams=ps, pparams=ps2, method="mhcustom", nsamples=4, nburnout=2, custom_step=lambda x, *p: x * 0.5 + 0.3)
     else:
         raise ValueError(fname)
+    if ps2 is not ps:
+        ps = ps + ps2
     leaves = [p for p in ps if isinstance(p, torch.Tensor) and p.requires_grad]
     if not leaves:
         return ps, out, []
@@ -313,32 +324,37 @@ def replay(ctx, functionals, prefix):
     n = 0
     with warnings.catch_warnings():
         warnings.simplefilter("ignore")
-        for st in sorted(nodes.values(), key=lambda s_: (s_["f"], list(s_["ks"]))):
-            fname, ks, pred = st["f"], [str(k) for k in st["ks"]], st["pred"]
+        for st in sorted(nodes.values(), key=lambda s_: (s_["f"], list(s_["ks"]), s_["layout"])):
+            fname, ks, pred, layout = st["f"], [str(k) for k in st["ks"]], st["pred"], st["layout"]
             n += 1
-            ctx.case(key=("gradpattern", fname, tuple(ks)))
+            ctx.case(key=("gradpattern", fname, tuple(ks), layout))
             why = None
             try:
                 if n % 3 == 0:
                     # every third row under xitorch's debug mode (extra input checks, parameter probing): same outcome demanded
                     import contextlib, io
                     with xitorch.enable_debug(), contextlib.redirect_stdout(io.StringIO()):
-                        ps, out, g = run_row(fname, ks)
+                        ps, out, g = run_row(fname, ks, layout)
                 else:
-                    ps, out, g = run_row(fname, ks)
+                    ps, out, g = run_row(fname, ks, layout)
                 gi = iter(g)
-                for i, (k, p) in enumerate(zip(ks, ps)):
+                expect = list(pred["grads"]) + list(pred["grads2"])
+                allks = ks + (ks[1:] + ks[:1] if len(pred["grads2"]) else [])
+                for i, (k, p) in enumerate(zip(allks, ps)):
                     if k in ("tg", "tu"):
                         gr = next(gi)
                         nz = gr is not None and float(gr.detach().abs().max()) > 0
-                        if pred["grads"][i] == "nonzero" and not nz:
-                            why = "parameter %d (requires grad, used) received %s" % (i, "no gradient" if gr is None else "a zero gradient")
-                        if pred["grads"][i] == "zero_or_none" and nz:
-                            why = "parameter %d (unused) received a non-zero gradient" % i
+                        which = "parameter %d" % i if i < 3 else "parameter %d of the second list" % (i - 3)
+                        if expect[i] == "nonzero" and not nz:
+                            why = "%s (requires grad, used) received %s" % (which, "no gradient" if gr is None else "a zero gradient")
+                        if expect[i] == "zero_or_none" and nz:
+                            why = "%s (unused) received a non-zero gradient" % which
+                        if gr is not None and tuple(gr.shape) != tuple(p.shape):
+                            why = "%s of shape %s received a gradient of shape %s" % (which, tuple(p.shape), tuple(gr.shape))
             except Exception as e:
                 why = "raised %s: %s" % (type(e).__name__, str(e)[:140])
             if why:
-                ctx.violation("%s/gradpattern/%s" % (prefix, fname), "%s with extra parameters of kinds %s (tg: tensor requiring grad, tu: unused tensor requiring grad, tn: tensor without grad, num: number): %s"
-                              % (fname, ks, why), {"f": fname, "ks": ks})
+                ctx.violation("%s/gradpattern/%s" % (prefix, fname), "%s with extra parameters of kinds %s%s (tg: tensor requiring grad, tu: unused tensor requiring grad, tn: tensor without grad, num: number): %s"
+                              % (fname, ks, " and shapes (), (2,), (1,2)" + ("; second list rotated by one" if fname == "mcquad" else "") if layout == "shapes" else "", why), {"f": fname, "ks": ks, "layout": layout})
     return n + dependent_rows(ctx, functionals, prefix) + precision_rows(ctx, functionals, prefix) + shared_leaf_rows(ctx, functionals, prefix) \
         + duplicate_rows(ctx, functionals, prefix) + wrapped_solution_rows(ctx, functionals, prefix)
